@@ -26,6 +26,7 @@ RULE = ('(A) seeded jump-level programs (markers, counters, bounded and unbounde
         'Non-trivial: N >= 5 and at least one statement ran outside the top-level list (function, callback or include). Distinct by program.')
 RULE += " Also in (A): dataFilter / dataCalculatedField / dataJoin callbacks with and without a variables object, failing part-way at a row that is not an object; include statements inside function bodies; included files ending in `return <expr>`; partial applications created by the top-level script and called inside includes / functions / data expressions. A run that emits more than 15 000 markers or is still going after minutes is reported as not stopped by the budget. Round 5: every third VM program runs in debug mode (the interpreter's own log lines are not markers; none may report the budget abort as a failed call)."
 RULE += ' Round 7: runs that END with the include of a file that only defines functions (each definition is a statement of the run).'
+RULE += ' Round 8: one options object used for three consecutive runs (a limit above N and one below): every run has the whole budget to itself.'
 ASSUMPTIONS = ['every marker (systemLog) is its own statement, so the number of markers is a lower bound on the statements started',
                'non-terminating programs are run under a large finite limit (5000) in place of "unlimited"']
 
